@@ -64,10 +64,16 @@ func VH_C17_MapBatch() {
 	storage := vhNewBasicStorage()
 	addr := vhAddr(1)
 	b := &vDigesterBuilder{levels: 4}
+	// the collision limit: a stream that individual operations could have built
+	// (no digest shared by more than limit+1 keys) must be accepted by the batch
+	// builder too -- copying a map that sits exactly at its limit is legal
+	limit := []uint32{255, 0, 1, 2}[vhChoose("climit", 4)]
+	maxCollisionLimitPerDigest = limit
 	var model []vhKV
 	sorted := true
 	distinct := true
 	i := 0
+	run, maxRun := 0, 0
 	var prev uint64
 	m, err := NewMapFromBatchData(storage, addr, b, vTypeInfo{id: 42}, vhCompare, vhHip, 12345,
 		func() (Value, Value, error) {
@@ -80,6 +86,12 @@ func VH_C17_MapBatch() {
 			}
 			if i > 0 && k.d[0] == prev {
 				distinct = false // colliding keys are ordered by their deeper digests, not by the source
+				run++
+			} else {
+				run = 1
+			}
+			if run > maxRun {
+				maxRun = run
 			}
 			prev = k.d[0]
 			val := vElem{tag: uint64(1000 + i), size: vhRange32("vsz", 1, 300)}
@@ -91,6 +103,12 @@ func VH_C17_MapBatch() {
 		vhAssert(err != nil, "unsorted digests: rejected")
 		vhAssert(vhIsHashError(err), "unsorted digests: hash error")
 		vhReach("batch-unsorted")
+		return
+	}
+	maxCollisionLimitPerDigest = 255
+	if uint32(maxRun) > limit+1 {
+		// beyond what individual operations accept: refusing or building are both fine
+		vhReach("batch-over-limit")
 		return
 	}
 	vhAssert(err == nil, "batch build: no error")
